@@ -226,6 +226,51 @@ def job_eacces(res, rng, sc, w, job):
         finally:
             for v in victims:
                 os.chmod(v.abs, 0o644)
+    # a directory that can be listed but not searched (r--): its entries are named, their content cannot be opened. Other
+    # names of the same files (hard links) in a readable place are other entries: their content cells stay what they are
+    hl = os.path.join(w, "hl")
+    os.makedirs(os.path.join(hl, "live"))
+    os.makedirs(os.path.join(hl, "ro"))
+    for k in range(rng.randint(2, 4)):
+        fp = os.path.join(hl, "live", "data%d.bin" % k)
+        with open(fp, "wb") as f:
+            f.write(b"".join(rng.choice([b"line\n", b"#!/bin/sh\n", b"x" * 40, b"\n"]) for _ in range(rng.randint(1, 30))))
+        os.link(fp, os.path.join(hl, "ro", "alias%d" % k))
+    with open(os.path.join(hl, "live", "single.txt"), "wb") as f:
+        f.write(b"one name only\n")
+    os.chmod(os.path.join(hl, "ro"), 0o744)
+    try:
+        cols = ["path", "size", "sha1", "sha256", "line_count", "contains('line')"]
+        qb = "%s from hl/live into list" % ", ".join(cols)
+        base = runner.run([qb], cwd=w, home=home, uid=NOBODY)
+        res.ev()
+        if base.verdict == "ok" and base.rc == 0 and not base.err:
+            want = sorted(base.rows(len(cols)))
+            if any(row[2] == "" or row[3] == "" for row in want):
+                res.viol("hash of a readable file is empty in a fault-free run", {"query": qb, "rows": want[:4]})
+            for frm, tail in (("hl/ro, hl/live", ""), ("hl/live, hl/ro", ""), ("hl", ""), ("hl dfs", ""), ("hl/ro, hl/live", " order by path"),
+                              ("hl", " order by size desc, path")):
+                q = "%s from %s%s into list" % (", ".join(cols), frm, tail)
+                r = runner.run([q], cwd=w, home=home, uid=NOBODY)
+                res.ev()
+                ctx = {"query": q, "baseline": qb, "result": r.brief()}
+                if not judge_basic(res, r, q, ctx):
+                    continue
+                try:
+                    rows = r.rows(len(cols))
+                except ValueError as e:
+                    res.viol("`%s`: undecodable output (%s)" % (q, e), ctx)
+                    continue
+                got = sorted(row for row in rows if row[0].startswith("hl/live/"))
+                if got != want:
+                    ctx["expected"], ctx["got"] = want[:4], got[:4]
+                    res.viol("entries of an unsearchable directory that are hard links to readable files elsewhere changed the rows of those files "
+                             "(`%s` against `%s`)" % (q, qb), ctx)
+                    continue
+                res.cover("eacces_paths", "unsearchable-dir-with-aliases")
+                res.nt("unsearchable|%s%s|%d" % (frm, tail, len(want)))
+    finally:
+        os.chmod(os.path.join(hl, "ro"), 0o755)
 
 
 # ---- (b) syscall-level fault injection -------------------------------------------------------------
